@@ -183,7 +183,8 @@ PROPS["C02"]["explanation"] = ("export_tabs proved against the documented tab-st
                                "has a positive set-based gap degree and brackets_skipdisco is absent, writes nothing when it skips and otherwise "
                                "the text of write_brackets_subtree followed by one newline; treeoutput.terminals raises ValueError exactly for "
                                "terminals_pos + pos_only and otherwise appends, per token in order, the POS tag / the word / word-separator-tag "
-                               "followed by a blank (newline with terminals_one), then a newline (streams are modelled as the text written so far). "
+                               "followed by a blank (newline with terminals_one), then a newline (streams are modelled as the text written so far); "
+                               "tigerxml_end closes body then corpus with only white space around. "
                                "write_brackets_subtree, the export / TIGER-XML / discobrackets writers as a whole are bounded only.")
 
 _pb("C05", "contract-based deductive verification (pyvc) of the grouping loop of boyd_split (loop invariant over a list of lists), of the creation of one block node of boyd_split incl. the head-block recurrence, of the selection loop of raising and of the re-attachment steps of boyd_split and raising, as block contracts; bounded stand-in against the reference ref_raise",
